@@ -200,6 +200,13 @@ def _outputs(res: C.Result, deep: bool):
                                                   detail=f"{nme}: parser {g['parser']:#010x}, {lang} output {g[lang]:#010x}"))
                 else:
                     langs[lang] += 1
+            for other, v, oh in g.get("signal_versions", []):
+                if v not in (0, oh):
+                    res.failures.append(C.Failure(clause="signal_version_is_another_definitions_hash", case=case,
+                                                  detail=f"send_signal({other}) right after send_message({nme}) stamped version "
+                                                         f"{v if isinstance(v, str) else hex(v)}; {other}'s hash is {oh:#010x}"))
+                else:
+                    langs["header.version"] += 1
             for v in g.get("versions", []):
                 if v != g["parser"]:
                     res.failures.append(C.Failure(clause="header_version_is_not_the_hash", case=case,
